@@ -29,6 +29,6 @@ package certexchange
 //@   property C16
 //@   modifies auto
 //@   maypanic
-//@   at select 1
+//@   at chanselect 1
 //@     before[delivers_only_in_sequence] request.FirstInstance + i <= 18446744073709551615 ==> cert.GPBFTInstance == request.FirstInstance + i
 //@     before[delivers_at_most_limit] i < request.Limit
